@@ -166,8 +166,9 @@ Definition spec_step (s : sstate) (e : sev) (o : list obs) : sum sstate verdict 
       match check_data_cbs (sp_pending s) dn dd o with
       | inr v => inr v
       | inl rest =>
-          (* "each arriving Data resolves all pending Interests it satisfies" *)
-          match find (fun i => satisfies i dn dd) rest with
+          (* "each arriving Data resolves all pending Interests it satisfies" (not demanded of an Interest whose Express
+             reported an error) *)
+          match find (fun i => negb (s_opt i) && satisfies i dn dd) rest with
           | Some i => inr (VDataMissed (s_pid i))
           | None => inl (with_pending s rest)
           end
